@@ -243,6 +243,8 @@ def run(ctx):
     pre_vary = ch.choice([None, None, 'Accept-Encoding', 'Origin, Accept-Language'], 'pre_vary')
     pre_same = ch.draw(4, 'headers_of_the_same_name_set_before') == 3
     audit_render = ch.draw(3, 'handler_renders_error_before_raising') == 2
+    pre_complete = bool(plan['components']) and plan['components'][0]['request'] and \
+        ch.draw(5, 'first_component_short_circuits') == 4
     # an earlier request on the same app that ends in a header-bearing built-in error
     pre_kind = ch.choice([None, None, 'method_not_allowed', 'unauthorized', 'too_many', 'range', 'unavailable'],
                          'pre_request')
@@ -292,7 +294,7 @@ def run(ctx):
                 'raise_site': raise_site, 'err': err_args, 'status': st_args, 'accept': accept,
                 'xml': xml_on, 'custom_media': custom_on, 'custom_fast': custom_fast, 'doc_fail': doc_fail,
                 'asgi': asgi, 'stack': plan,
-                'render_kind': render_kind, 'pre_vary': pre_vary, 'pre_same': pre_same, 'audit_render': audit_render, 'hostile_str': hostile,
+                'render_kind': render_kind, 'pre_vary': pre_vary, 'pre_same': pre_same, 'audit_render': audit_render, 'pre_complete': pre_complete, 'hostile_str': hostile,
                 'pre_request': pre_kind, 'unreadable_body': unreadable, 'stale_kind': stale_kind,
                 'stale_stream': stale_stream}
     ctx.plan_key = json.dumps(ctx.plan, sort_keys=True, default=repr)
@@ -324,6 +326,13 @@ def run(ctx):
         ctx.probe('hostile_str')
 
     def act(site):
+        if pre_complete and site == 'mw0.request' and site != raise_site:
+            # the first component answers the request itself (short-circuit with a body); what a
+            # later process_response raises still goes through the error machinery, body discarded
+            def short_circuit(req, resp):
+                resp.text = 'answered by the first component'
+                resp.complete = True
+            return short_circuit
         if site != raise_site:
             return None
 
